@@ -43,9 +43,52 @@ def grow_stage(run, thorough):
         os.remove(outp + ".cur")
 
 
+def ids_stage(run, thorough):
+    """MatrixImpl.tla: id bookkeeping (upper bound, LIFO reuse, the IdIterator loop) and the cleaning of the matrix on
+    removal; model-checked, then every exported state history replayed on the real MatrixGraph."""
+    d = os.path.join(SPEC, "simple")
+    base = open(os.path.join(d, "MCMatrixImpl.cfg")).read()
+    tmp = os.path.join(d, "out_MCMatrixImpl.cfg")
+    scripts = []
+    for directed in (True, False):
+        name = "directed" if directed else "undirected"
+        ids, ops = (4, 11 if thorough else 9) if directed else (4, 12 if thorough else 10)
+        q = base.replace("MaxId = 3", "MaxId = %d" % ids).replace("MaxOps = 8", "MaxOps = %d" % ops).replace("Directed = TRUE", "Directed = %s" % ("TRUE" if directed else "FALSE"))
+        open(tmp, "w").write(q)
+        run.add_mc("MatrixImpl %s %d ids, %d calls" % (name, ids, ops), tlc("simple/MatrixImpl", "out_MCMatrixImpl.cfg", workers=8, timeout=1800, tag="c04ids"))
+        q = base.replace("MaxOps = 8", "MaxOps = %d" % (10 if thorough else 8)).replace("Directed = TRUE", "Directed = %s" % ("TRUE" if directed else "FALSE")).replace("INVARIANT Inv", "INVARIANT Inv Export")
+        open(tmp, "w").write(q)
+        r = tlc("simple/MatrixImpl", "out_MCMatrixImpl.cfg", workers=1, timeout=1800, tag="c04idsx")
+        run.add_mc("MatrixImpl export", r)
+        scripts += [parse_printed_json(l, "MXI")[1] for l in r.printed("MXI")]
+    os.remove(tmp)
+    if not scripts:
+        raise ToolError("MatrixImpl export printed nothing")
+    inp = os.path.join(OUT, "traces", "C04-ids-in.ndjson")
+    outp = os.path.join(OUT, "traces", "C04-ids-out.ndjson")
+    write_ndjson(inp, scripts)
+    vh(["mxi-replay", "--in", inp, "--out", outp])
+    res = read_ndjson(outp)
+    if len(res) != len(scripts):
+        raise ToolError("mxi-replay answered %d of %d" % (len(res), len(scripts)))
+    bad = [x for x in res if not x["ok"]]
+    run.traces += len(res) - len(bad)
+    run.extra["matriximpl_histories_replayed"] = len(res)
+    run.extra["matriximpl_id_choice_agreement"] = "%d of %d histories were followed to the end with the ids the model predicts (informational: C04 does not promise which free id is reused)" % (len([x for x in res if x["followed"]]), len(res))
+    log("[ids] %d MatrixImpl histories replayed, %d differ; %s" % (len(res), len(bad), run.extra["matriximpl_id_choice_agreement"]))
+    for x in bad[:5]:
+        sc = scripts[x["i"]]
+        run.violation({"kind": "matrix_impl", "directed": sc["directed"], "calls": len(sc["hist"]), "first_diff": (x["diffs"] or ["?"])[0][:80]},
+                      [dict(sc, diffs=x["diffs"])], header={"exec": "mxi-replay"})
+    for f in (inp, outp, outp + ".cur"):
+        if os.path.exists(f):
+            os.remove(f)
+
+
 def run(tier, seed):
     r = run_sg("C04", tier, seed, "MatrixGraph")
     grow_stage(r, tier == "thorough")
+    ids_stage(r, tier == "thorough")
     r.assumptions.append("MatrixGrow.tla: exhaustive for old capacities 0..%s and requests up to %s with a fully populated matrix; the model's final Vec equals the real routine's for every such call" % (("10", "17") if tier == "thorough" else ("6", "9")))
     return r.finish()
 
@@ -63,5 +106,16 @@ def replay(path, seed):
         for x in res:
             if not x["ok"]:
                 run_.violation({"kind": "matrix_grow", "call": x["call"]}, [calls[x["i"]]], header={"exec": "mx-grow"})
+        return 1 if run_.violations else 0
+    if evs and evs[0].get("replay", {}).get("exec") == "mxi-replay":
+        run_ = Run("C04", "quick", seed)
+        build_harness()
+        scripts = [e for e in evs if "replay" not in e]
+        inp = os.path.join(OUT, "traces", "C04-ids-rp.ndjson")
+        write_ndjson(inp, scripts)
+        vh(["mxi-replay", "--in", inp, "--out", inp + ".out"])
+        for x in read_ndjson(inp + ".out"):
+            if not x["ok"]:
+                run_.violation({"kind": "matrix_impl", "first_diff": (x["diffs"] or ["?"])[0][:80]}, [scripts[x["i"]]], header={"exec": "mxi-replay"})
         return 1 if run_.violations else 0
     return replay_sg("C04", path, seed)
